@@ -886,6 +886,35 @@ class Program:
         return (isinstance(f, ast.Name) and f.id == callee.name and callee.cls is None) or \
             (isinstance(f, ast.Attribute) and f.attr == callee.name and callee.cls is not None)
 
+    def add_synthetic(self, fn: FuncInfo, stmts: List[ast.stmt], suffix: str) -> FuncInfo:
+        """A view of `fn` (e.g. its residual under an assumption, dznverif.specialise) as a function of the model of its own:
+        parent links, nested functions and the type environment work on it like on any other function.  It is not entered
+        into the class / module tables and has no call-graph edges."""
+        import copy
+        node = copy.copy(fn.node)
+        node.body = [copy.deepcopy(s_) for s_ in stmts] or [ast.Pass()]
+        node.decorator_list = []
+        ast.fix_missing_locations(node)
+        for x in ast.walk(node):
+            if not hasattr(x, 'lineno') and isinstance(x, (ast.expr, ast.stmt)):
+                x.lineno = x.end_lineno = getattr(fn.node, 'lineno', 0)
+                x.col_offset = x.end_col_offset = 0
+        fi = FuncInfo(fn.name, f'{fn.qualname}<{suffix}>', fn.module, node, fn.cls, None)
+        fi.is_static = fn.is_static
+        self._parents[id(node)] = self._parents.get(id(fn.node))
+        for x in ast.walk(node):
+            for ch in ast.iter_child_nodes(x):
+                self._parents[id(ch)] = x
+
+        def index_nested(parent_fi: FuncInfo, pnode):
+            for sub in self._direct_nested_defs(pnode):
+                q = f'{parent_fi.qualname}.{sub.name}'
+                nfi = FuncInfo(sub.name, q, fn.module, sub, fn.cls, parent_fi)
+                parent_fi.nested[sub.name] = nfi
+                index_nested(nfi, sub)
+        index_nested(fi, node)
+        return fi
+
     def bind_call(self, mod: Module, call: ast.Call) -> Dict[str, ast.expr]:
         """parameter / field name -> argument expression of a call of a package class or function, however the source
         spells it (positional or keyword).  Unresolved callees: the keywords only."""
@@ -1296,9 +1325,18 @@ class TypeEnv:
     def _bind_target(self, tgt, how):
         if isinstance(tgt, ast.Name):
             self._assign_sites.setdefault(tgt.id, []).append(how)
+        elif isinstance(tgt, ast.Starred):
+            # `first, *rest = xs`: rest is a list of elements of xs
+            self._bind_target(tgt.value, ('rest', how))
         elif isinstance(tgt, (ast.Tuple, ast.List)):
+            starred = any(isinstance(e, ast.Starred) for e in tgt.elts)
             for i, e in enumerate(tgt.elts):
-                self._bind_target(e, ('item', how, i))
+                if isinstance(e, ast.Starred):
+                    self._bind_target(e.value, ('rest', how))
+                elif starred:
+                    self._bind_target(e, ('elem', how[1]) if how[0] == 'expr' else ('item', how, i))
+                else:
+                    self._bind_target(e, ('item', how, i))
 
     def var_type(self, name: str) -> tuple:
         if name in self.vars and name not in self._assign_sites:
@@ -1322,6 +1360,10 @@ class TypeEnv:
 
     def _site_type(self, site) -> tuple:
         kind = site[0]
+        if kind == 'rest':
+            inner = site[1]
+            t = strip_opt(self.type_of(inner[1])) if inner[0] == 'expr' else ANY
+            return t if t[0] == 'list' else t_list(ANY)
         if kind == 'expr':
             return self.type_of(site[1])
         if kind == 'ann':
@@ -1599,6 +1641,7 @@ class TypeEnv:
         consts: List[Tuple[ast.AST, Module]] = []
         seen: Set[str] = set()
         seen_fn: Set[str] = set()
+        self._scan_funcs: List[FuncInfo] = []
 
         def add(sym):
             if isinstance(sym, tuple) and sym[0] == 'const' and isinstance(sym[1], (ast.Dict, ast.Tuple, ast.List, ast.Call)):
@@ -1623,8 +1666,18 @@ class TypeEnv:
                         add(prog.resolve_name(env.mod, n.id))
                 elif isinstance(n, ast.Attribute) and isinstance(n.ctx, ast.Load):
                     add(prog.resolve_expr_symbol(env.mod, n))
+                    # a bound method handed around as a value (`return self._indent_line, self._bullet_line`)
+                    if isinstance(n.value, ast.Name) and n.value.id in ('self', 'cls') and env.fn.cls is not None:
+                        m_ = prog.lookup_method(env.fn.cls, n.attr)
+                        if m_ is not None and not m_.is_property and not any(
+                                isinstance(q, ast.Call) and q.func is n for q in ast.walk(x)):
+                            if m_ not in self._scan_funcs:
+                                self._scan_funcs.append(m_)
                 if isinstance(n, ast.Call) and isinstance(n.func, (ast.Name, ast.Attribute)):
                     sym = prog.resolve_expr_symbol(env.mod, n.func)
+                    if sym is None and isinstance(n.func, ast.Attribute) and isinstance(n.func.value, ast.Name) and \
+                            n.func.value.id in ('self', 'cls') and env.fn.cls is not None:
+                        sym = prog.lookup_method(env.fn.cls, n.func.attr)
                     if isinstance(sym, FuncInfo) and sym.fq not in seen_fn and sym.module.name.startswith(PKG):
                         seen_fn.add(sym.fq)
                         env2 = TypeEnv(prog, sym)
@@ -1644,9 +1697,11 @@ class TypeEnv:
             consts = self._table_consts(f.args[1])
         else:
             consts = self._table_consts(f)
+        if not consts and by_name_on is None and self._scan_funcs:
+            return list(self._scan_funcs)
         if not consts:
             return []
-        out: List[Any] = []
+        out: List[Any] = list(self._scan_funcs) if by_name_on is None else []
         for node, mod in consts:
             if by_name_on is not None:
                 bt = strip_opt(self.type_of(by_name_on))
